@@ -326,7 +326,25 @@ theorem list_wf (cfg : Cfg) (gas : Nat) (hT : TokWF cfg gas) (hL : ListWF cfg ga
     intro m hm
     obtain ⟨l, _, hl2⟩ := hmk m hm
     exact parseMarker_leader l.s m hl2
+  have hstop : ∀ (items : List Item) (fwEnd : FW) (stEnd : St) (rr : List Item × FW × St), ItemsWF items → items ≠ [] →
+      (Res.ok ((match items with
+        | .mk inner loose i p l n g :: rest => Item.mk inner (decide (inner.length > 1) && loose) i p l n g :: rest
+        | [] => []).reverse, fwEnd, stEnd) : Res _) = .ok rr → rr.1 ≠ [] ∧ ItemsWF rr.1 := by
+    intro items fwEnd stEnd rr hi hne he
+    cases he
+    cases items with
+    | nil => exact absurd rfl hne
+    | cons x xs =>
+      cases x
+      simp only [ItemsWF, ItemWF] at hi
+      refine ⟨by simp, itemsWF_reverse _ ?_⟩
+      simp only [ItemsWF, ItemWF]
+      exact hi
   simp only [readList] at h
+  split at h
+  · rename_i hom
+    obtain ⟨d, m, hd, _, _⟩ := otherMarkerType_some hom
+    exact hstop acc _ _ r hacc (hld (by rw [hd]; simp)) h
   split at h
   · cases h
   · rename_i il hil
@@ -360,29 +378,13 @@ theorem list_wf (cfg : Cfg) (gas : Nat) (hT : TokWF cfg gas) (hL : ListWF cfg ga
     · rename_i item itemLeader next fw' st' hres
       obtain ⟨hk, hk2, hkw⟩ := key item itemLeader next fw' st' hres
       subst hk; subst hk2
-      have hstop : ∀ (items : List Item) (fwEnd : FW) (rr : List Item × FW × St), ItemsWF items → items ≠ [] →
-          (Res.ok ((match items with
-            | .mk inner loose i p l n g :: rest => Item.mk inner (decide (inner.length > 1) && loose) i p l n g :: rest
-            | [] => []).reverse, fwEnd, st') : Res _) = .ok rr → rr.1 ≠ [] ∧ ItemsWF rr.1 := by
-        intro items fwEnd rr hi hne he
-        cases he
-        cases items with
-        | nil => exact absurd rfl hne
-        | cons x xs =>
-          cases x
-          simp only [ItemsWF, ItemWF] at hi
-          refine ⟨by simp, itemsWF_reverse _ ?_⟩
-          simp only [ItemsWF, ItemWF]
-          exact hi
       have hacc' : ItemsWF (item :: acc) := ⟨hkw, hacc⟩
       split at h
       · split at h
-        · exact hstop acc _ r hacc (hld (by simp)) h
-        · split at h
-          · exact hstop _ _ r hacc' (by simp) h
-          · exact hL il.fw st' _ _ _ r h hl' hnp hacc' (fun _ => by simp)
+        · exact hstop _ _ _ r hacc' (by simp) h
+        · exact hL il.fw st' _ _ _ r h hl' hnp hacc' (fun _ => by simp)
       · split at h
-        · exact hstop _ _ r hacc' (by simp) h
+        · exact hstop _ _ _ r hacc' (by simp) h
         · exact hL il.fw st' _ _ _ r h hl' hnp hacc' (fun _ => by simp)
 
 theorem contains_of_mem (s : Str) (c : Char) (h : c ∈ s) : s.contains c = true := by
